@@ -163,7 +163,7 @@ class Doc:
                 self.trans.append(tr)
         j = {"n": len(nodes), "name": [], "kind": [], "parent": [], "children": [], "hists": [], "htype": [],
              "init": [], "onentry": [], "onexit": [], "strans": [], "trans": [], "blocks": None, "vars": self.vars,
-             "sdata": [],
+             "sdata": [], "donedata": [],
              "dm": self.dm, "binding": self.binding, "family": self.family}
         for n in nodes:
             j["name"].append(n.name)
@@ -174,6 +174,7 @@ class Doc:
             j["htype"].append(n.htype)
             j["init"].append(n.init_t.id if n.init_t else 0)
             j["sdata"].append([{"n": k, "v": v} for (k, v) in (n.data if n.kind != "root" else [])])
+            j["donedata"].append([{"n": k, "e": e} for (k, e) in (n.donedata or [])])
             one = []
             if am and n.kind not in ("root", "history"):
                 one.append(self._block([mark("en:" + n.name)] + inm))
@@ -330,6 +331,9 @@ class Doc:
             out += self._trans_xml(tr, ind + 1)
         if n.initial is not None and n.initial[0] == "elem":
             out += [p + " <initial>"] + self._trans_xml(n.initial[1], ind + 2) + [p + " </initial>"]
+        if n.donedata:
+            out.append(p + " <donedata>" + "".join("<param name=%s expr=%s/>" % (quoteattr(k), quoteattr(self._expr_text(e)))
+                                                     for k, e in n.donedata) + "</donedata>")
         for x in getattr(n, "extra_xml", []):
             out.append(p + " " + x)
         for k in n.kids:
@@ -741,6 +745,38 @@ def final_docs():
     top = F("top")
     op.t("done.state.op", top, body=[mark("op-done")])
     add(ROOT(op, top), "nested-parallel-finals", alphabet=["e1", "e2", "e3"])
+
+    # donedata: evaluated when the final state has been entered (after the transition content and the final's onentry),
+    # again at every completion; the done event of a parallel carries none
+    fd, fe = F("fd"), F("fe")
+    fd.donedata = [("p1", expr("var", "x")), ("p2", expr("const", v=7)), ("p3", expr("inc", "x"))]
+    fe.donedata = [("q", expr("in", v=0))]          # In('d1') at that moment (patched to the node id below)
+    fd.onentry = [[assign("x", expr("inc", "x"))]]
+    d1 = S("d1")
+    d = S("d", d1, fd, fe)
+    d1.t("e1", fd, body=[assign("x", expr("inc", "x"))])
+    d1.t("e2", fe)
+    wd = S("wd", d)
+    wd.t("done.state.d", None, body=[mark("d-done", expr("var", "x"))])
+    wd.t("e3", d1)
+    topd = F("topd")
+    wd.t("zz", topd)
+    dd_doc_root = ROOT(wd, topd)
+    docs.append(Doc(dd_doc_root, family="final", name="donedata", alphabet=["e1", "e2", "e3"]))
+    fe.donedata = [("q", expr("in", v=d1.id))]
+    docs[-1] = Doc(dd_doc_root, family="final", name="donedata", alphabet=["e1", "e2", "e3"])
+    # donedata in parallel regions: each region's final has its own, the parallel's done event has none
+    ra, fra, rb, frb = S("ra"), F("fra"), S("rb"), F("frb")
+    fra.donedata = [("who", expr("const", v=1)), ("x", expr("var", "x"))]
+    frb.donedata = [("who", expr("const", v=2)), ("x", expr("var", "x"))]
+    ra.t("e1", fra, body=[assign("x", expr("inc", "x"))])
+    rb.t("e2", frb, body=[assign("x", expr("inc", "x"))])
+    rb.t("e1", frb, body=[assign("x", expr("inc", "x"))])
+    pd = P("pd", S("rga", ra, fra), S("rgb", rb, frb))
+    od = S("od")
+    pd.t("done.state.pd", od, body=[mark("pd-done")])
+    od.t("e3", pd)
+    add(ROOT(pd, od), "donedata-parallel", alphabet=["e1", "e2", "e3"])
 
     # a parallel whose region is itself a parallel: outer done event needs the recursive isInFinalState
     a, fa, b, fb, s1, f1 = S("a"), F("fa"), S("b"), F("fb"), S("s1"), F("f1")
